@@ -67,6 +67,7 @@ fn mine_with_delay(w: &mut World, tr: &mut Tracker, delay: u32) {
 	let _ = h;
 }
 
+#[derive(Debug)]
 pub struct Outcome {
 	pub label: String,
 }
@@ -454,4 +455,28 @@ pub fn run(args: &Args) -> i32 {
 	ev.assume("constants transcribed from the library's documentation: ANTI_REORG_DELAY 6, LATENCY_GRACE_PERIOD_BLOCKS 3, advertised cltv_expiry_delta 72, MAX_BLOCKS_FOR_CONF 18");
 	ev.assume("each block is one unit of time; every valid transaction confirms within miner_delay + 1 <= 18 blocks of its first broadcast");
 	mc_common::findings::conclude("C08", &violations, &mut ev)
+}
+
+/// Re-runs one case named by its Debug form (as written in a violation's replay file).
+pub fn replay_case(case: &str) -> i32 {
+	for tier in [Tier::Quick, Tier::Thorough] {
+		if let Some(c) = cases(tier).into_iter().find(|c| format!("{:?}", c) == case) {
+			let r = par::guarded(|| run_case(&c));
+			return match r {
+				Ok(Ok(o)) => {
+					println!("case {:?}: held ({:?})", c, o);
+					0
+				},
+				Ok(Err((oracle, detail))) => {
+					println!("case {:?}: {} {}", c, oracle, detail);
+					1
+				},
+				Err(p) => {
+					println!("case {:?}: panic {}", c, p);
+					1
+				},
+			};
+		}
+	}
+	mc_common::cli::die("unknown case in replay file")
 }
